@@ -2,6 +2,7 @@
 from __future__ import annotations
 
 import logging
+import os
 import struct
 from collections import Counter
 
@@ -297,6 +298,8 @@ class HostileRun:
         # discovered while the others are being told about it)
         same = case["same"] if case else ch.weighted("burst.same", [(3, None), (1, C.MT_CLIENT_CLOSED), (1, C.MT_RTMA_LOG_ERROR),
                                                                    (1, C.ALL_MESSAGE_TYPES)])
+        if os.environ.get("VERIF_NO_MASS_FAILURE") and not case:
+            same = None
         if same is not None and not case:
             # (every broadcast of that kind goes to every member: quadratic work; the 300-member versions are
             # deterministic cases with their own wall limit)
@@ -618,6 +621,8 @@ def det_cases(tier):
     if tier == "quick":
         cases = cases[::23]
     cases.append(dict(op="churn", n=1100, wall_s=400))
+    if os.environ.get("VERIF_NO_MASS_FAILURE"):
+        return cases
     # hundreds of clients that follow the same announcement fail at the same instant
     for same in (C.MT_CLIENT_CLOSED, C.MT_RTMA_LOG_ERROR, C.ALL_MESSAGE_TYPES):
         for way in ("rst", "fin"):
